@@ -93,6 +93,10 @@ CLAIMS["C15"] = ("daemon", "property-based scenario generation (rapid) + exhaust
     "All messages, answers, HTTP bodies, log lines and files produced by generated DKG / resharing / beacon-production scenarios are scanned for the long-term keys and shares; the scanner is validated in every case by finding them where they must be.",
     "Whole-scalar encodings only.", "DESIGN.md §3 C15")
 
+CLAIMS["C13"] = ("daemon", "fault enumeration: crash images at every persistence point (verif build-tag hooks) of rapid-generated scripted runs of three real daemons, plus synthesised torn files; oracle = restart from the image + cross-consistency of dkg.db, key files and chain store",
+    "Every persistence operation of the node under test in the script is a crash point (before / file created / after, and torn prefixes for in-place writes); each image is restarted with fresh objects and checked for loadability, one-epoch consistency and a valid gap-free chain containing what was served.",
+    "bbolt and the file system are trusted for atomicity/ordering below the call level.", "DESIGN.md §3 C13")
+
 PENDING_REASON = "check not built yet in this session (planned, see DESIGN.md §3); not claimed until it exists and is silent on the unchanged tree"
 
 
@@ -141,7 +145,7 @@ def main():
 
 
 NA_REASONS = {}
-HOOK_COMMITS = []
+HOOK_COMMITS = ["1c88d4a5"]
 ENGINES = [
     {"name": "store", "path": "harness/store", "serves_properties": ["C18"], "kind_free_text": "model-based tests of boltdb (trimmed/untrimmed) and memdb stores"},
     {"name": "beaconnet", "path": "harness/beaconnet", "serves_properties": ["C01", "C02", "C03", "C04", "C05", "C07", "C10"], "kind_free_text": "real beacon.Handler instances on an in-memory ProtocolClient network with fake clocks, recording stores, adversary catalogue"},
